@@ -85,16 +85,19 @@ class Dataset(collection.Collection):
                 dset.add_text(field, val=data[field])
         return dset
 
-    def _construct_memo(self):
+    def _construct_memo(self, write_level=None):
         """ Constructs dictionary
 
         Dictionary to keep track of object references
             key: object(TimeArray, PostionArray, etc) id,
             value: field_name
+
+        Only fields that will be written with the given write level can be referred to by name
         """
         memo = dict()
         for field in self._fields.values():
-            field.fill_memo(memo)
+            if write_level is None or field.write_level >= write_level:
+                field.fill_memo(memo, write_level=write_level)
         return memo
 
     def write(self, file_path: Union[str, pathlib.Path], write_level: Optional[enums.WriteLevel] = None) -> None:
@@ -108,7 +111,7 @@ class Dataset(collection.Collection):
         file_path = pathlib.Path(file_path).resolve()
         file_path.parent.mkdir(parents=True, exist_ok=True)
 
-        memo = self._construct_memo()
+        memo = self._construct_memo(write_level)
         with h5py.File(file_path, mode="w") as h5_file:
 
             # Write each field
